@@ -249,6 +249,19 @@ func forType(t reflect.Type, seen map[reflect.Type]bool, ignore bool, schemas ma
 		// no additional properties are allowed
 		s.AdditionalProperties = falseSchema()
 
+		// The fields that produce a property, in field order. Several fields can
+		// claim the same JSON name (through tags or embedding); which of them
+		// encoding/json uses is decided after the loop.
+		type candidate struct {
+			name     string
+			depth    int  // number of embedding levels, as in encoding/json
+			tagged   bool // the name comes from the json tag
+			schema   *Schema
+			required bool
+		}
+		var candidates []candidate
+		claimed := make(map[string]bool) // names of the candidates so far
+
 		// If skipPath is non-nil, it is path to an anonymous field whose
 		// schema has been replaced by a known schema.
 		var skipPath []int
@@ -295,7 +308,7 @@ func forType(t reflect.Type, seen map[reflect.Type]bool, ignore bool, schemas ma
 					}
 					slices.Sort(keys)
 					for _, name := range keys {
-						if _, ok := s.Properties[name]; !ok {
+						if _, ok := s.Properties[name]; !ok && !claimed[name] {
 							s.Properties[name] = override.Properties[name].CloneSchemas()
 							s.PropertyOrder = append(s.PropertyOrder, name)
 						}
@@ -359,14 +372,53 @@ func forType(t reflect.Type, seen map[reflect.Type]bool, ignore bool, schemas ma
 				}
 				fs.Description = tag
 			}
-			s.Properties[info.name] = fs
-
+			claimed[info.name] = true
 			s.PropertyOrder = append(s.PropertyOrder, info.name)
+			candidates = append(candidates, candidate{
+				name:     info.name,
+				depth:    len(field.Index),
+				tagged:   hasJSONTagName(field),
+				schema:   fs,
+				required: !info.settings["omitempty"] && !info.settings["omitzero"],
+			})
+		}
 
-			if !info.settings["omitempty"] && !info.settings["omitzero"] {
-				s.Required = append(s.Required, info.name)
+		// Like encoding/json, among the fields with the same JSON name keep the one
+		// at the shallowest depth; if several share that depth, keep the one whose
+		// name comes from a tag if there is exactly one such; otherwise keep none.
+		for i, c := range candidates {
+			dominant := true
+			rivals, taggedRivals := 0, 0
+			for j, d := range candidates {
+				if i == j || d.name != c.name {
+					continue
+				}
+				if d.depth < c.depth {
+					dominant = false
+				}
+				if d.depth == c.depth {
+					rivals++
+					if d.tagged {
+						taggedRivals++
+					}
+				}
+			}
+			if rivals > 0 && !(c.tagged && taggedRivals == 0) {
+				dominant = false
+			}
+			if !dominant {
+				continue
+			}
+			s.Properties[c.name] = c.schema
+			if c.required {
+				s.Required = append(s.Required, c.name)
 			}
 		}
+		// A name that no field keeps is not a property at all.
+		s.PropertyOrder = slices.DeleteFunc(s.PropertyOrder, func(name string) bool {
+			_, ok := s.Properties[name]
+			return !ok
+		})
 
 		// Remove PropertyOrder duplicates, keeping the last occurrence
 		if len(s.PropertyOrder) > 1 {
@@ -401,6 +453,12 @@ func forType(t reflect.Type, seen map[reflect.Type]bool, ignore bool, schemas ma
 		s.Type = ""
 	}
 	return s, nil
+}
+
+// hasJSONTagName reports whether the field's JSON name is given by its json tag.
+func hasJSONTagName(f reflect.StructField) bool {
+	name, _, _ := strings.Cut(f.Tag.Get("json"), ",")
+	return name != "" && isValidTagName(name)
 }
 
 // initialSchemaMap holds types from the standard library that have MarshalJSON methods.
